@@ -462,7 +462,7 @@ Lemma slot_app_repeat : forall t n c f j,
 Proof. intros. unfold slot. simpl. apply nth_app_repeat_none. Qed.
 
 (* _vnacal_alloc_parameter: what a successful allocation does; a failed one (fix D11) and the
-   bookkeeping invariant; no assertion failure *)
+   bookkeeping invariant; the modelled assert(parameter < allocation) cannot fail *)
 Lemma alloc_ok_spec : forall t k fl t' h,
   inv_table t -> alloc_param t k fl = AOk t' h ->
   slot t h = None /\ slot t' h = Some (mkParam k false 1) /\
@@ -646,7 +646,7 @@ Proof.
   unfold bn in H0; simpl in H0. lia.
 Qed.
 
-(* _vnacal_release_parameter never trips an assertion when the counts are right, and the counts
+(* _vnacal_release_parameter never trips one of its (three, modelled) assertions when the counts are right, and the counts
    stay right (the released reference is [dl h]) *)
 Lemma release_ok : forall fuel t h c,
   inv_table t -> RI t (fun x => c x + dl h x) -> occupied (pt_slots t) < fuel ->
@@ -1186,7 +1186,7 @@ Qed.
 
 Ltac same_state := match goal with |- Good ?s /\ _ => idtac end.
 
-(* every operation except vnacal_free keeps the invariant and trips no assertion *)
+(* every operation except vnacal_free keeps the invariant and trips no modelled assertion *)
 Lemma step_good : forall s o,
   st_freed s = false -> Good s -> o <> OFree ->
   Good (fst (step s o)) /\ st_freed (fst (step s o)) = false /\ o_ret (snd (step s o)) <> RFault.
@@ -1449,7 +1449,7 @@ Proof.
   apply IH. intros j. exact (H (S j)).
 Qed.
 
-(* vnacal_free (with fix D42) never trips an assertion - assert(vprmc_count == 0) at the end of the
+(* vnacal_free (with fix D42) never trips a modelled assertion - assert(vprmc_count == 0) at the end of the
    teardown included: every parameter has been freed - and ends the life of the object *)
 Lemma free_ok : forall s, st_freed s = false -> Good s ->
   exists s', step s OFree = (s', mkOut (RInt 0) ENone 0) /\ st_freed s' = true /\
